@@ -397,6 +397,25 @@ func C08(c *vlib.Ctx) {
 					case m == 5:
 						mut, tsAt = "ts_inside_tolerance", tsAt.Add(-(rt.Tolerance - time.Second))
 					}
+					if mut == "valid" && m >= 22 && r.Chance(0.4) {
+						// a secret that is valid on ANOTHER route of the same configuration
+						// (inline, or a version valid at the signed instant)
+						var foreign []string
+						for _, o := range routes {
+							if o.Kind != "hmac" || o.Path == rt.Path {
+								continue
+							}
+							foreign = append(foreign, o.Inline...)
+							for _, v := range o.Versions {
+								if v.validAt(tsAt) {
+									foreign = append(foreign, v.Value)
+								}
+							}
+						}
+						if len(foreign) > 0 {
+							mut, secret = "other_routes_secret", foreign[r.Intn(len(foreign))]
+						}
+					}
 					farTS := int64(0)
 					if mut == "valid" && m >= 22 && r.Chance(0.5) {
 						// timestamps far away from the gateway clock (signed correctly)
@@ -436,6 +455,11 @@ func C08(c *vlib.Ctx) {
 					}
 					if !crossNow.IsZero() {
 						now = crossNow
+					}
+					if mut == "ts_at_tolerance" && r.Bool() {
+						// the gateway clock a fraction of a second further: just outside the window
+						mut = "ts_at_tolerance_plus_subsecond"
+						now = now.Add(vlib.Pick(r, []time.Duration{time.Nanosecond, 400 * time.Millisecond, 999 * time.Millisecond}))
 					}
 					clock.Set(now)
 					tsStr := strconv.FormatInt(tsAt.Unix(), 10)
